@@ -175,6 +175,21 @@ func c07Input(c *core.Ctx, i int64, src []byte, class string, r *rand.Rand) {
 			}
 		}
 	}
+	// many irregular short reads (prime-sized pieces, growing and shrinking)
+	if n >= 64 {
+		for t := 0; t < 4; t++ {
+			var st []mon.Step
+			left := n
+			for left > 0 {
+				k := []int{1, 2, 3, 5, 7, 11, 13, 17, 61, 127, 509, 1021, 2039, 4093, 4099}[r.Intn(15)]
+				st = append(st, mon.Step{N: k})
+				left -= k
+			}
+			if !c07Try(c, src, whole, st, "irregular_short_reads") {
+				return
+			}
+		}
+	}
 	// many zero-byte reads over the whole input, never two in a row
 	if n >= 4 {
 		var st []mon.Step
@@ -254,6 +269,12 @@ var c07Fixed = []string{
 	"print é",
 	"print 1 é",
 	"print 漢",
+	"print  \x85 1",
+	"print \x85 1",
+	"  \xa0print 1",
+	"var x = 1   \xa0\x85  print x",
+	"print 1 \t\x85",
+	"# c\n \xa0\n print 2",
 	"print 😀",
 	"😀",
 	"print 1 😀 2",
@@ -316,6 +337,29 @@ func init() {
 				if c.Mine(i) {
 					c.Begin(i)
 					c07Pages(c, i, b[:min(len(b), 600)], c.Rand(i), 2)
+				}
+				i++
+			}
+			// tokens longer than a read page: strings, identifiers, numbers, comments
+			for k := 0; k < c.Pick(24, 400); k++ {
+				if c.Mine(i) {
+					r := c.Rand(i)
+					var b strings.Builder
+					for t, m := 0, 2+r.Intn(3); t < m; t++ {
+						ln := 4097 + r.Intn(6000)
+						switch r.Intn(4) {
+						case 0:
+							fmt.Fprintf(&b, "print %q\n", strOfLen(ln, r))
+						case 1:
+							fmt.Fprintf(&b, "def b%d { %s = %d }\n", t, identOfLen(ln), t)
+						case 2:
+							fmt.Fprintf(&b, "print 0.%s1\n", strings.Repeat("0", ln))
+						default:
+							fmt.Fprintf(&b, "#%s\nprint %d\n", strOfLen(ln, r), t)
+						}
+					}
+					c.Begin(i)
+					c07Input(c, i, []byte(b.String()), "long_tokens", r)
 				}
 				i++
 			}
